@@ -37,28 +37,36 @@ PInit ==
   /\ content = [i \in 0..(total - 1) |-> None]
   /\ res = [op |-> "init"]
 
-(* what the offered part hashes to, and its aunts.  For "aunt"/"extra"/"missing" the verdict must be the same *)
-(* for EVERY concrete choice of position and replacement hash: AllReject quantifies over all of them.          *)
-LeafOf(j, c) == IF c = "bytes" THEN Foreign ELSE IF c = "otherbytes" THEN Leaf((j + 1) % total) ELSE Leaf(j)
-ProofsOf(j, c) ==
-  LET au == ProofOf(j, total) U == Universe(total) IN
+(* what the offered part hashes to, and its aunts, in a set of t parts.  For "aunt"/"extra"/"missing" the      *)
+(* verdict must be the same for EVERY concrete choice of position and replacement hash (ClassesUniform).       *)
+LeafOf(t, j, c) == IF c = "bytes" THEN Foreign ELSE IF c = "otherbytes" THEN Leaf((j + 1) % t) ELSE Leaf(j)
+ProofsOf(t, j, c) ==
+  LET au == ProofOf(j, t) U == Universe(t) IN
   CASE c \in {"none", "bytes"} -> {au}
-    [] c = "otherbytes" -> IF total > 1 THEN {au} ELSE {}
+    [] c = "otherbytes" -> IF t > 1 THEN {au} ELSE {}
     [] c = "aunt"    -> {[au EXCEPT ![x[1]] = x[2]] : x \in {y \in (1..Len(au)) \X U : y[2] # au[y[1]]}}
     [] c = "extra"   -> {SubSeq(au, 1, p) \o <<h>> \o SubSeq(au, p + 1, Len(au)) : p \in 0..Len(au), h \in U}
     [] c = "missing" -> {SubSeq(au, 1, p - 1) \o SubSeq(au, p + 1, Len(au)) : p \in 1..Len(au)}
 
-Offerable(j, c) == j \in 0..(total - 1) /\ ProofsOf(j, c) # {}
+CanOffer(t, j, c) == j \in 0..(t - 1) /\ ProofsOf(t, j, c) # {}
 
 (* part.Proof.Verify(part.Index, ps.total, part.Hash(), ps.Hash()) for one / every concretisation *)
-SomeAccept(i, j, c) == \E au \in ProofsOf(j, c) : Verify(i, total, LeafOf(j, c), au, RootOf(total))
-AllAccept(i, j, c)  == \A au \in ProofsOf(j, c) : Verify(i, total, LeafOf(j, c), au, RootOf(total))
+SomeAccept(t, i, j, c) == \E au \in ProofsOf(t, j, c) : Verify(i, t, LeafOf(t, j, c), au, RootOf(t))
+AllAccept(t, i, j, c)  == \A au \in ProofsOf(t, j, c) : Verify(i, t, LeafOf(t, j, c), au, RootOf(t))
+
+Claimed == (0 - MaxParts - 1)..(MaxParts + 1)
+
+(* the proof check of every offerable part, computed once (constant) *)
+Accepts == [t \in 1..MaxParts |->
+              [x \in Claimed \X (0..(t - 1)) \X Mutations |-> CanOffer(t, x[2], x[3]) /\ AllAccept(t, x[1], x[2], x[3])]]
+
+Offerable(j, c) == CanOffer(total, j, c)
 
 (* reply of AddPart in program order *)
 Result(i, j, c) ==
   IF i < 0 \/ i >= total THEN "errIndex"
   ELSE IF i \in have THEN "dup"                     \* (false, nil) whatever the content
-  ELSE IF AllAccept(i, j, c) THEN "added"
+  ELSE IF Accepts[total][<<i, j, c>>] THEN "added"
   ELSE "errProof"
 
 AddPart(i, j, c, r) ==
@@ -72,7 +80,7 @@ AddPart(i, j, c, r) ==
             /\ UNCHANGED total
        ELSE UNCHANGED <<total, have, count, content>>
 
-PNext == \E i \in (0 - MaxParts - 1)..(MaxParts + 1), j \in 0..(MaxParts - 1), c \in Mutations, r \in Results :
+PNext == \E i \in Claimed, j \in 0..(MaxParts - 1), c \in Mutations, r \in Results :
             AddPart(i, j, c, r)
 
 PSpec == PInit /\ [][PNext]_pvars
@@ -82,10 +90,15 @@ PSpec == PInit /\ [][PNext]_pvars
 
 PTypeOK == /\ have \subseteq 0..(total - 1) /\ count \in 0..total
 
-(* the verdict does not depend on which aunt / which replacement: a class is accepted by all or by none *)
+(* the verdict does not depend on which aunt / which replacement: a class is accepted by all or by none (constant) *)
 ClassesUniform ==
-  \A i \in (0 - total - 1)..(total + 1), j \in 0..(total - 1), c \in Mutations :
-     Offerable(j, c) => (SomeAccept(i, j, c) <=> AllAccept(i, j, c))
+  \A t \in 1..MaxParts : \A i \in Claimed, j \in 0..(t - 1), c \in Mutations :
+     CanOffer(t, j, c) => (SomeAccept(t, i, j, c) <=> AllAccept(t, i, j, c))
+
+(* the proof check alone (no index guard, no duplicate check) accepts exactly the genuine part (constant) *)
+ProofCheckExact ==
+  \A t \in 1..MaxParts : \A i \in Claimed, j \in 0..(t - 1), c \in Mutations :
+     CanOffer(t, j, c) => (Accepts[t][<<i, j, c>>] <=> (i = j /\ c = "none"))
 
 (* a part is accepted if and only if it is the genuine part at its index (and not there yet) *)
 OnlyGenuineAccepted ==
